@@ -403,7 +403,10 @@ def replace_matching_item(
             anon_val = prefix + _anonymize_value(
                 match.group(sensitive_item_num), pwd_lookup, reserved_words, salt
             )
-            output_line = compiled_re.sub(anon_val, output_line)
+            # Insert the replacement literally: the preserved prefix (and enclosing
+            # text) come from the input line and must not be interpreted as a regex
+            # replacement template (e.g. backslashes in a user name)
+            output_line = compiled_re.sub(lambda _match: anon_val, output_line)
 
         # If any matches existed in this regex group, stop processing more regexes
         if match_found:
